@@ -239,6 +239,7 @@ def coq_forbidden_scan(files=None):
         txt_nc = strip_coq_comments(txt)
         in_section = 0
         for ln, line in enumerate(txt_nc.split("\n"), 1):
+            line = re.sub(r'"[^"]*"', '""', line)     # string literals cannot declare anything
             if re.match(r"\s*Section\b", line):
                 in_section += 1
             if re.match(r"\s*End\b", line) and in_section:
